@@ -70,7 +70,7 @@ func (f *Subtract) Call(s *slip.Scope, args slip.List, depth int) (dif slip.Obje
 				case slip.Complex:
 					dif = slip.Complex(-complex128(td))
 				}
-				return
+				return reduceNumber(dif)
 			}
 			continue
 		}
@@ -96,6 +96,13 @@ func (f *Subtract) Call(s *slip.Scope, args slip.List, depth int) (dif slip.Obje
 			dif = (*slip.Ratio)(z.Sub((*big.Rat)(dif.(*slip.Ratio)), (*big.Rat)(ta)))
 		case slip.Complex:
 			dif = slip.Complex(complex128(dif.(slip.Complex)) - complex128(ta))
+		}
+	}
+	// A difference of nothing but bignums stays a bignum even when it fits
+	// in a fixnum. That is the way to get a small bignum without a coerce.
+	for _, a := range args {
+		if _, ok := a.(*slip.Bignum); !ok {
+			return reduceNumber(dif)
 		}
 	}
 	return
